@@ -3,7 +3,7 @@
    (the statement is about the operation wherever it stands: any node path, any matcher state),
    exactly the position predicates of the specification; the dot class is the specification's.
    Partial: that the search shortcuts around a leading ^ agree with the plain loop is part of C08. *)
-From RX Require Import Base.Prelude Base.InvList Spec.Syntax Spec.Sem Model.Op Model.Engine Model.Compiler Proofs.SmallFacts.
+From RX Require Import Base.Prelude Base.InvList Spec.Syntax Spec.Sem Model.Op Model.Engine Model.Compiler Proofs.SmallFacts Spec.Parse Model.Matcher Model.Api Proofs.GroupGrammar Proofs.GroupSpec.
 Local Open Scope N_scope.
 
 Theorem C12_bol :
@@ -30,6 +30,28 @@ Example C12_ex :
   /\ eol_at {| s_i := false; s_m := false; s_s := false; s_x := false; s_q := false |} [97;10] 1 = false.
 Proof. vm_compute. repeat split. Qed.
 
+(* the anchors inside whole patterns, from the strings: on the grammar of Proofs/GroupGrammar.v - which
+   under XPath has '^' and '$' as pieces of a branch, anywhere, also inside groups and alternatives -
+   the model's Regex::new (hook constructor) + is_match gives the specification's verdict, whose
+   anchors are exactly bol_at / eol_at with their dependence on flag m *)
+Theorem C12_anchors_end_to_end_partial :
+  forall xpath a fls input,
+    ok_a xpath a = true -> existsb (N.eqb 59) fls = false -> (N.of_nat (length input) < umax)%N ->
+    match spec_flags xpath fls with
+    | Valid sf =>
+        s_q sf = false -> s_x sf = false ->
+        exists re r, regex_new true xpath (show_a a) fls = Ok re /\ spec_parse xpath (show_a a) = Valid r
+                     /\ is_match re input = Ok (spec_is_match sf input r)
+    | Invalid => regex_new true xpath (show_a a) fls = Err EInvalidFlags
+    | Unspecified => True
+    end.
+Proof. exact grammar_end_to_end. Qed.
+
+Example C12_anchor_pattern :
+  show_a ex_tree_an = [94; 97; 98; 36; 124; 99]%N /\ ok_a true ex_tree_an = true.
+Proof. exact ex_tree_an_text. Qed.
+
 Print Assumptions C12_bol.
 Print Assumptions C12_eol.
 Print Assumptions C12_dot.
+Print Assumptions C12_anchors_end_to_end_partial.
